@@ -119,6 +119,56 @@ theorem closed_summary_edge (h : closed f S E R = true) {o : Origin} (ho : o ∈
   have := List.all_eq_true.1 (List.all_eq_true.1 h1 sn hsn) tn htn
   simpa using this
 
+/-! ### the same at the level of SSA values (plain reachability over operands)
+
+`ssaOK f R` is the decidable SSA sanity the oracle evaluates on every dumped function (answer `ssa=1`):
+definitions are unique and reach their uses in the CFG. Under it, the instruction-level chains
+above are exactly what the simple value-level relation `DefUse` (the property's "chain of
+value-computing instructions") generates. -/
+
+theorem defuse_chain (h : closed f S E R = true) (hs : ssaOK f R = true) {o : Origin}
+    (ho : o ∈ f.origins) {v : Nat} (hd : DefUse f o v) : Chain f o (defLoc f v) v := by
+  unfold ssaOK at hs
+  simp only [Bool.and_eq_true] at hs
+  obtain ⟨⟨hso, hsi⟩, _⟩ := hs
+  induction hd with
+  | base =>
+    have := List.all_eq_true.1 hso o ho
+    rw [beq_iff_eq] at this
+    rw [this]; exact Chain.base
+  | @step i a _ hri hst ih =>
+    have hR := closed_reach h hri
+    have hlt := instr_res_lt hst.1
+    have h1 := List.all_eq_true.1 hsi i (List.mem_range.2 hlt)
+    unfold Func.instr at hst ⊢
+    simp only [hR, Bool.not_true, Bool.false_or, Bool.and_eq_true, Bool.or_eq_true, beq_iff_eq] at h1
+    obtain ⟨hdef, hops⟩ := h1
+    have hdef' : defLoc f (f.instrs.getD i default).res = i := by
+      rcases hdef with h0 | h0
+      · exact absurd h0 hst.1
+      · exact h0
+    have hreach := reachFrom_sound (List.all_eq_true.1 hops a hst.2.1)
+    have hc : Chain f o i a := chain_along ih hreach
+    have := Chain.step hc (by unfold Func.instr; exact hst)
+    unfold Func.instr at this
+    rw [hdef']; exact this
+
+/-- **Def-use chains are covered by the summary.**  If value `t.val` used at the reachable boundary
+use `t` derives from origin `o` through any chain of the listed value-computing instructions
+(`DefUse`: reflexive-transitive closure of operand → result), the summary connects every node of `o`
+to every node of `t`. -/
+theorem closed_covers_defuse (h : closed f S E R = true) (hs : ssaOK f R = true) {o : Origin}
+    (ho : o ∈ f.origins) (hr : Reach f 0 o.loc) {t : Target} (ht : t ∈ f.targets)
+    (hrt : Reach f 0 t.loc) (hd : DefUse f o t.val) :
+    ∀ sn ∈ o.nodes, ∀ tn ∈ t.nodes, (sn, tn, eidx o) ∈ E := by
+  have hc := defuse_chain h hs ho hd
+  have hs' := hs
+  unfold ssaOK at hs'
+  simp only [Bool.and_eq_true] at hs'
+  have h1 := List.all_eq_true.1 hs'.2 t ht
+  simp only [closed_reach h hrt, Bool.not_true, Bool.false_or] at h1
+  exact closed_summary_edge h ho hr ht (chain_along hc (reachFrom_sound h1))
+
 /-! ### non-vacuity: a diamond with a phi, a conversion, a call and a return
 
     0: t1 = p + p        (binop)       1: if c goto 2 else 3
@@ -148,6 +198,10 @@ example : closed exF exS exE (reachFrom exF 0) = true := by
     reachSeeds, reachLoop, exF, exS, exE, has, marksOf, subsetS, factLt, dataOps, markPasses, eidx, List.range,
     List.range.loop, Array.getD, Array.setIfInBounds]
 
+example : ssaOK exF (reachFrom exF 0) = true := by
+  simp [ssaOK, defLoc, reachFrom, reachSeeds, reachLoop, exF, dataOps, List.range, List.range.loop, Array.getD,
+    Array.setIfInBounds, Array.findIdx?, Array.findIdx?.loop]
+
 /-- the criterion rejects the same state with the phi transfer dropped (what a broken `DoPhi` yields). -/
 example : closed exF (fun i => (exS i).filter (· != (6, 2))) exE (reachFrom exF 0) = false := by
   simp [closed, reachOK, initOK, carryOK, xferOK, edgesOK, originReach, closedFrom, reachPlus, reachFrom,
@@ -169,5 +223,6 @@ example : Chain exF ⟨1, 1, 0, none, [10]⟩ 5 6 := by
 #print axioms closed_covers_chains
 #print axioms closed_summary_edge
 #print axioms closed_monotone_along_cfg
+#print axioms closed_covers_defuse
 
 end Argot.Intra
